@@ -42,7 +42,7 @@ func firstDiff(a, b []string) (int, string, string) {
 
 func checkC20(ca *checkArgs) int {
 	start := time.Now()
-	n, budget := 6000, 60*time.Second
+	n, budget := 24000, 60*time.Second
 	if ca.tier == "thorough" {
 		n, budget = 1000000, 20*time.Minute
 	}
